@@ -58,6 +58,13 @@ def cases(rng, tier):
         for mode in ("five", "single"):
             lines = rvgen.header(mode, True, "-", "-", prog, regs, []) + ["sim.run 200", "sim.snap"]
             yield Case("rv-run-" + mode, lines, None, {"mode": mode, "hazard": True, "prog": prog, "regs": regs, "pokes": [], "d": "-", "i": "-"})
+    # the same fault schedules under data caches of both kinds (incl. one-word blocks, where a store replaces a whole block):
+    # the cache must refuse an address outside the data memory AT the instruction that uses it
+    for prog, regs in rvgen.fault_schedule_programs():
+        for k, d in enumerate(("wb,lru,0,0,1,0", "wb,plru,1,1,2,0", "wt,lru,1,0,1,0", "wt,plru,0,2,2,2")):
+            mode = "five" if (k + len(prog)) % 2 else "single"
+            lines = rvgen.header(mode, True, d, "-", prog, regs, []) + ["sim.run 200", "sim.snap"]
+            yield Case("rv-run-cached", lines, None, {"mode": mode, "hazard": True, "prog": prog, "regs": regs, "pokes": [], "d": d, "i": "-"})
     # run-time faults
     for i in range(150 if tier == "quick" else 3000):
         mode = "five" if i % 2 else "single"
@@ -163,4 +170,16 @@ def oracle(c):
                         fails.append(Failure("oracle", PROP, f"run-time error at {a} prints another instruction than the one stored there", "run:wrong-instruction"))
         if fails:
             break
+    if not fails and c.suite == "rv-run-cached":
+        # an address outside the data memory is refused at the instruction that uses it, with or without a data cache
+        import impl as implmod
+        new = c.lines[0].split()
+        plain = implmod.run_lines([" ".join(new[:3] + ["-", "-"])] + c.lines[1:])
+        fo = next((o for l, o in zip(c.lines, plain) if l.startswith("sim.run") and " F " in o and " E addr " in o), None)
+        fc = next((o for l, o in zip(c.lines, c.impl_out) if l.startswith("sim.run")), "")
+        if fo is not None:
+            a = fo.split()[fo.split().index("F") + 1]
+            got = fc.split()[fc.split().index("F") + 1] if " F " in fc else None
+            if got != a and " E byteoff " not in fc:
+                fails.append(Failure("oracle", PROP, f"without a data cache the access outside the data memory is reported at instruction address {a}; with the cache {new[3]} the run answers `{fc[:80]}`", "run:fault-not-at-instruction"))
     return fails
